@@ -73,6 +73,7 @@ typedef struct {
 	unsigned kept_seed;
 	int violated;
 } world_t;
+static int g_ext;                  /* part "extconf": the service is an extending service (configuration requests and pushed configurations only) */
 static int g_keep;                 /* returned handles are kept for re-submission instead of being freed */
 static world_t W;
 static char g_hist[40];
@@ -100,7 +101,7 @@ static void h_after_send(sn_conn *c) {
 		rp_req r;
 		int i, parsed;
 		if (c->parsed_out >= c->out.n || rtlv_read(c->out.p + c->parsed_out, c->out.n - c->parsed_out, &t) != 0) break;
-		parsed = rp_parse_request(c->out.p + c->parsed_out, t.hdr + t.len, RP_AGGR, &r) == 0;
+		parsed = rp_parse_request(c->out.p + c->parsed_out, t.hdr + t.len, g_ext ? RP_EXT : RP_AGGR, &r) == 0;
 		if (!parsed) { HF("request-stream-unframed", "the bytes written on the connection are not a sequence of whole requests (offset %zu of %zu)", c->parsed_out, c->out.n); W.violated = 1; }
 		if (parsed && !r.has_req && r.has_conf_req) {
 			if (!rp_request_mac_ok(&r, KEY, strlen(KEY))) { HF("request-mac", "emitted configuration request does not carry a valid MAC"); W.violated = 1; }
@@ -166,7 +167,7 @@ static void world_open(const config_t *cfg) {
 	sn_reset(); fc_reset();
 	sn.on_connect = h_connect; sn.on_send = h_send; sn.after_send = h_after_send; sn.on_recv = h_recv; sn.on_poll = h_poll;
 	W.ctx = ku_ctx();
-	if (KSI_SigningAsyncService_new(W.ctx, &W.svc) != KSI_OK) vf_harness_error("service");
+	if ((g_ext ? KSI_ExtendingAsyncService_new(W.ctx, &W.svc) : KSI_SigningAsyncService_new(W.ctx, &W.svc)) != KSI_OK) vf_harness_error("service");
 	if (KSI_AsyncService_setEndpoint(W.svc, "ksi+tcp://a13.test:3332", LOGIN, KEY) != KSI_OK) vf_harness_error("endpoint");
 	KSI_AsyncService_setOption(W.svc, KSI_ASYNC_OPT_REQUEST_CACHE_SIZE, (void *)(size_t)cfg->cache);
 	KSI_AsyncService_setOption(W.svc, KSI_ASYNC_OPT_MAX_REQUEST_COUNT, (void *)(size_t)cfg->maxreq);
@@ -394,12 +395,19 @@ static int apply_inner(int ev) {
 		case EV_ADD_CONF: {
 			KSI_AsyncHandle *h = NULL;
 			KSI_AggregationReq *rq = NULL;
+			KSI_ExtendReq *xq = NULL;
 			KSI_Config *cf = NULL;
 			int res;
 			if (W.nreq >= MAXREQ) return 0;
+			if (g_ext) {
+				if (KSI_ExtendReq_new(W.ctx, &xq) != KSI_OK || KSI_Config_new(W.ctx, &cf) != KSI_OK) vf_harness_error("conf request objects");
+				if (KSI_ExtendReq_setConfig(xq, cf) != KSI_OK) vf_harness_error("setConfig");
+				if (KSI_AsyncExtendHandle_new(W.ctx, xq, &h) != KSI_OK) vf_harness_error("conf handle new");
+			} else {
 			if (KSI_AggregationReq_new(W.ctx, &rq) != KSI_OK || KSI_Config_new(W.ctx, &cf) != KSI_OK) vf_harness_error("conf request objects");
 			if (KSI_AggregationReq_setConfig(rq, cf) != KSI_OK) vf_harness_error("setConfig");
 			if (KSI_AsyncAggregationHandle_new(W.ctx, rq, &h) != KSI_OK) vf_harness_error("conf handle new");
+			}
 			res = KSI_AsyncService_addRequest(W.svc, h);
 			vf_count("impl_calls", 1);
 			if (res == KSI_OK) {
@@ -514,9 +522,10 @@ static int apply_inner(int ev) {
 			if (!c) return 0;
 			if (ev == EV_ERROR_PDU && nun == 0) return 0;
 			memset(&e, 0, sizeof e);
-			e.version = 2; e.kind = RP_AGGR; e.login = LOGIN; e.mac_alg = RH_SHA256; e.key = KEY; e.keylen = strlen(KEY);
+			e.version = 2; e.kind = g_ext ? RP_EXT : RP_AGGR; e.login = LOGIN; e.mac_alg = RH_SHA256; e.key = KEY; e.keylen = strlen(KEY);
 			vb_init(&b); vb_init(&payload);
-			if (ev == EV_ERROR_PDU) rp_error_payload(&payload, 2, RP_AGGR, 0x0300, "upstream error");
+			if (ev == EV_ERROR_PDU) rp_error_payload(&payload, 2, g_ext ? RP_EXT : RP_AGGR, 0x0300, "upstream error");
+			else if (g_ext) rp_ext_conf_payload(&payload, 12, NULL, 1136073600LL + 1000, 1700000000LL);
 			else rp_aggr_conf_payload(&payload, 17, 1, 400, 1000, NULL);
 			rp_wrap_response(&b, &e, payload.p, payload.n);
 			queue_reply(c, &b, ev == EV_ERROR_PDU ? 2 : 3, 0);
@@ -824,6 +833,31 @@ static void part_conf(void) {
 	}
 }
 
+/* the same on an extending service (its configuration request is kept in another field of the same record): configuration requests,
+ * configuration payloads, error PDUs, network events - no extension requests */
+static void part_extconf(void) {
+	static const int ALPHA[] = {EV_ADD_CONF, EV_RUN, EV_PUSH_CONF, EV_ERROR_PDU, EV_DELIVER_ALL, EV_PEER_CLOSE, EV_CLOCK_BIG, EV_DELIVER_HALF, EV_SEND_WOULDBLOCK};
+	static const int CFGI[] = {1, 0};
+	int na = 9, ci, a1, depth = VF_THOROUGH ? 9 : 7, e;
+	g_ext = 1;
+	for (ci = 0; ci < 2; ci++) for (a1 = 0; a1 < na; a1++) {
+		int hist[16];
+		if (!vf_case_begin("extconf:cfg%d:K%c:d%d", CFGI[ci], EVCH[ALPHA[a1]], depth)) continue;
+		g_nalpha = 0;
+		for (e = 0; e < na; e++) g_alpha[g_nalpha++] = ALPHA[e];
+		memset(seen, 0, ((size_t)1 << SEEN_BITS) * sizeof *seen);
+		n_states = n_transitions = n_pruned = n_traces = 0;
+		hist[0] = EV_ADD_CONF; hist[1] = ALPHA[a1];
+		explore(&CONFIGS[CFGI[ci]], hist, 2, depth);
+		vf_count("states", n_states); vf_count("transitions", n_transitions); vf_count("traces", n_traces); vf_count("pruned_revisits", n_pruned);
+		if (ci == 0 && a1 == 1) vf_sample("extconf part (extending service): cfg %d prefix KR depth %d over {add-conf, run, config payload, error PDU, deliver all / half, peer close, clock, would-block}: %ld states, %ld transitions", CFGI[ci], depth, n_states, n_transitions);
+		vf_obs("states=%ld", n_states);
+		alpha_main();
+		vf_case_end(n_traces > 0);
+	}
+	g_ext = 0;
+}
+
 /* handles submitted again after they came back: a new request with a new id; what the earlier round left on the handle
  * (response object, error, raw request) must not show in the new round's result */
 static void part_readd(void) {
@@ -918,6 +952,7 @@ static void run(void) {
 	part_readd();
 	part_timeouts();
 	part_sndbuf();
+	part_extconf();
 	for (ci = 0; ci < NCONFIGS; ci++) {
 		int d = depth;
 		if (!VF_THOROUGH && ci >= 4) d = depth - 1;
